@@ -415,6 +415,9 @@ func versionedKey(h int64, name string) string { return "g_" + string(rune(h)) +
 
 // ---- monitor ----
 
+// finalGrace: a proposal decided in block d must have left the passed / failed stage by the end of block d+finalGrace-1.
+const finalGrace = 2
+
 type Monitor struct {
 	P     sim.Params
 	Props map[string]*PropM
@@ -874,6 +877,9 @@ func (m *Monitor) Block(h int64, raw [][]byte, res []sim.TxRes, afterDump map[st
 				finalisedNow = append(finalisedNow, p)
 				reachedZ[id] = true
 			}
+			if (old == SP || old == SN) && (st == SZ || st == SZF) {
+				m.FinalDueMet++
+			}
 			p.Path = append(p.Path, st)
 		}
 		if st == SF && rec.FundingGoal != nil && p.total().Cmp(rec.FundingGoal.BigInt()) >= 0 {
@@ -886,6 +892,22 @@ func (m *Monitor) Block(h int64, raw [][]byte, res []sim.TxRes, afterDump map[st
 	for _, id := range m.Order {
 		if _, present := after.props[id]; !present {
 			return viol("stage", "vanished", "h=%d: proposal %s (stage %s) is no longer in any store", h, id, m.Props[id].Stage)
+		}
+	}
+
+	// --- passed / failed is followed by finalised: the block beginner queues the finalisation of every proposal it
+	// finds decided and the block ender executes it, so a proposal decided in block d (d = 0: carried as decided
+	// by the genesis) is finalised in block d+1; one more block is granted before the stage counts as stuck ---
+	for _, id := range m.Order {
+		p := m.Props[id]
+		if (p.Stage == SP || p.Stage == SN) && h >= p.DecidedAt+finalGrace {
+			t := tallyOf(after.votes[id])
+			origin, class := fmt.Sprintf("decided by vote at height %d", p.DecidedAt), "decided-in-history"
+			if p.Imported != "" && p.DecidedAt == 0 {
+				origin, class = "carried by the genesis as "+p.Imported, "imported-"+p.Imported
+			}
+			return viol("finalisation-due", class, "h=%d: proposal %s (%s, outcome %s) is still in store %s: the block hooks have not finalised it, its funds (%s) stay locked; recorded votes yes=%d no=%d giveup=%d of all=%d, pass percentage %d",
+				h, id, origin, p.Rec.Outcome, map[Stage]string{SP: "Passed", SN: "Failed"}[p.Stage], p.total(), t.yes, t.no, t.giveup, t.all, p.Rec.PassPercentage)
 		}
 	}
 
